@@ -31,6 +31,7 @@
 #include "notify.h"
 #include "values.h"
 #include "vf.h"
+#include "c_stage.h"
 
 const char *vf_name = "c15_refs";
 
@@ -612,7 +613,8 @@ static uint64_t n_buf(void) { return vf_thorough ? 1800000 : 60000; }
 static uint64_t n_meta(void) { return vf_thorough ? 1950000 : 65000; }
 static uint64_t n_assign(void) { return vf_thorough ? 300000 : 30000; }
 static uint64_t n_refarr(void) { return vf_thorough ? 300000 : 30000; }
-uint64_t vf_cases(void) { return n_raw() + n_buf() + n_meta() + n_assign() + n_refarr(); }
+static uint64_t n_stg(void) { return vf_thorough ? 200000 : 20000; }
+uint64_t vf_cases(void) { return n_raw() + n_buf() + n_meta() + n_assign() + n_refarr() + n_stg(); }
 void vf_case(uint64_t idx, vf_rng *r)
 {
 	if (idx < n_raw()) { case_raw(idx); return; }
@@ -622,5 +624,7 @@ void vf_case(uint64_t idx, vf_rng *r)
 	if (idx < n_meta()) { case_meta(idx, r); return; }
 	idx -= n_meta();
 	if (idx < n_assign()) { case_assign(r); return; }
-	case_refarray(r);
+	idx -= n_assign();
+	if (idx < n_refarr()) { case_refarray(r); return; }
+	stage_history(r, "stage");
 }
